@@ -91,9 +91,9 @@ SepAddedEn == /\ Walking /\ HasA /\ HasB /\ InTable /\ K(B, "TkComma") /\ ~IsSep
               /\ Run.cfg.trail \in {"Multiline", "Always"}
               /\ PrevCodeK(In, i) \notin {"TkLeftBrace", "TkComma", "TkSemicolon"}
 SemiHazard == NextCodeK(In, i) = "TkLeftParen" /\ PrevCodeK(In, i) \in PrefixEnd
-\* an empty statement (`;` directly after a block opener or another `;`) is not a "trailing semicolon of a
-\* statement"; the formatter drops those under every configuration
-EmptyStat == PrevCodeK(In, i) \in {"", "TkSemicolon", "TkDo", "TkThen", "TkElse", "TkRepeat"}
+\* an empty statement (`;` directly after a block opener, another `;`, or a label, which takes no `;` of its
+\* own) is not a "trailing semicolon of a statement"; the formatter drops those under every configuration
+EmptyStat == PrevCodeK(In, i) \in {"", "TkSemicolon", "TkDo", "TkThen", "TkElse", "TkRepeat", "TkDbColon"}
 SemiDroppedEn == /\ Walking /\ HasA /\ K(A, "TkSemicolon") /\ ~InTable
                  /\ (~Run.cfg.keepSemi \/ EmptyStat)
                  /\ ~SemiHazard
